@@ -661,7 +661,7 @@ def fn_cases(ctx):
                 for og in itertools.product(*[range((d + c - 1) // c) for d, c in zip(dims, cl)]):
                     cases.append("C %d %d %s %s %s" % (nt, len(dims), " ".join(map(str, dims)), " ".join(map(str, cl)),
                                                      " ".join(map(str, og))))
-    for _ in range(1500 if quick else 6000):
+    for _ in range(3000 if quick else 30000):
         nd = r.choice([1, 2, 2, 3, 3, 4, 5])
         dims = [r.randrange(1, 14) for _ in range(nd)]
         cl = [r.choice([1, d, r.randrange(1, d + 1), d + r.randrange(0, 3)]) for d in dims]
@@ -703,7 +703,7 @@ def fn_oracle(line):
 def mc_cases(ctx):
     r = ctx.rng
     cases = []
-    for _ in range(400 if ctx.tier == "quick" else 3000):
+    for _ in range(600 if ctx.tier == "quick" else 10000):
         np_ = r.randrange(1, 9)
         maxc = r.choice([1, 1, 2, 3, np_, np_ + 1])
         ps = r.randrange(1, 4)
@@ -846,8 +846,8 @@ def run(ctx):
     stats = {}
     quick = ctx.tier == "quick"
     recs = load_corpus()
-    recs += sd_records(g, ctx.tier, 150 if quick else 300)
-    recs += gr_records(g, ctx.tier, 80 if quick else 120)
+    recs += sd_records(g, ctx.tier, 300 if quick else 2000)
+    recs += gr_records(g, ctx.tier, 150 if quick else 800)
     recs += exhaustive_records(g, (3, 3, 2) if quick else (4, 4, 3))
     check_records(ctx, recs, "main", stats)
     ctx.corr("layouts~array-spec", **{k: v for k, v in stats.items()})
